@@ -487,7 +487,8 @@ def star_elements(v):
                     isinstance(x.args[1], ast.Constant):
                 m = _re.match(r"^(\w+) in (.+)$", str(x.args[1].value))
                 if m:
-                    out.append((x.args[0], f"{m.group(2)}[_{m.group(1)}]", m.group(2)))
+                    # over range(..) the loop variable is the index itself
+                    out.append((x.args[0], m.group(1) if m.group(2).startswith("range(") else f"{m.group(2)}[_{m.group(1)}]", m.group(2)))
                     continue
                 m = _re.match(r"^(\(.+?\)) in (.+)$", str(x.args[1].value))
                 if not m or ";" in str(x.args[1].value):
@@ -553,3 +554,39 @@ def eval_over(formula, var, values, extra=None):
         except KeyError:
             return None
     return out
+
+
+def elementwise(arg):
+    """A list argument built per element of one iterable, in either spelling -- `[f(m) for m in xs]` / `(f(m) for m in xs)` or a
+    list filled by `for m in xs: l.append(f(m))` (FX renders it `[_each(f(xs[_m]), 'm in xs')]`): (text of f with the element
+    written `@`, text of xs).  None when `arg` is not of that form (several generators, conditions, mixed lists)."""
+    import copy
+    import re as _re
+    if isinstance(arg, ast.Starred):
+        arg = arg.value
+    if isinstance(arg, (ast.ListComp, ast.GeneratorExp)) and len(arg.generators) == 1 and not arg.generators[0].ifs:
+        proj = {}
+
+        def bind(t, e):
+            if isinstance(t, ast.Name):
+                proj[t.id] = e
+                return True
+            if isinstance(t, (ast.Tuple, ast.List)) and not any(isinstance(x, ast.Starred) for x in t.elts):
+                return all(bind(x, ast.Subscript(value=copy.deepcopy(e), slice=ast.Constant(value=k), ctx=ast.Load()))
+                           for k, x in enumerate(t.elts))
+            return False
+        if not bind(arg.generators[0].target, ast.Name(id="ELEM", ctx=ast.Load())):
+            return None
+
+        class S(ast.NodeTransformer):
+            def visit_Name(self, n):
+                return copy.deepcopy(proj[n.id]) if n.id in proj else n
+        return norm(S().visit(copy.deepcopy(arg.elt))).replace("ELEM", "@"), norm(arg.generators[0].iter)
+    if isinstance(arg, (ast.List, ast.Tuple)) and len(arg.elts) == 1:
+        x = arg.elts[0]
+        if isinstance(x, ast.Call) and isinstance(x.func, ast.Name) and x.func.id == "_each" and len(x.args) == 2 and isinstance(x.args[1], ast.Constant):
+            m = _re.match(r"^(\w+) in (.+)$", str(x.args[1].value))
+            if m and ";" not in str(x.args[1].value) and " if " not in str(x.args[1].value):
+                elem = f"{m.group(2)}[_{m.group(1)}]"
+                return norm(x.args[0]).replace(elem, "@"), m.group(2)
+    return None
